@@ -149,9 +149,8 @@ impl Checker {
                     match res {
                         Ok(n) => {
                             let total: usize = asked.iter().sum();
-                            if *n != total {
-                                push_viol(&mut self.violations, "write.short", format!("write of {total} bytes accepted {n}"));
-                            }
+                            // (a write may legitimately accept fewer bytes than offered; the ledger records what it accepted)
+                            let _ = total;
                             if *n > 0 && own_shutdown {
                                 push_viol(&mut self.violations, "write.after-shutdown", format!("a write of {n} bytes on direction {dir} succeeded after the local shutdown of that direction"));
                             }
